@@ -94,6 +94,12 @@ def specFlatten (sep : Key) (m : VMap) (back : Res Value) : Bool :=
 def specAton (n : Int) (back : Res Value) : Bool :=
   !(decide (0 ≤ n) && decide (n ≤ 4294967295)) || restores back (.int n)
 
+/-- text direction: whatever `ip_aton` accepts, `ip_ntoa` prints back -/
+def specNtoa (s : List Nat) (there back : Res Value) : Bool :=
+  match there with
+  | .ok _ => restores back (.bytes s)
+  | _ => true
+
 def octets (b : List Nat) : Bool := b.all (· < 256)
 
 def specPton (b : List Nat) (back : Res Value) : Bool :=
